@@ -251,12 +251,20 @@ class Exec(Engine):
         T = getattr(node, '_pyvc_elem', None)
         if T is not None:
             return T
+        c = REG.fns.get(st.frame.fnkey)
+        if c is not None and c.list_literals:
+            # declared in the contract; every element is coerced to it (a `type` obligation when it does not fit)
+            return parse_type(c.list_literals)
         if not vs:
             return ('any',)
         v = vs[0]
         k = {VInt: ('int',), VBool: ('bool',), VCh: ('echar',), VStr: ('str',)}.get(type(v))
         if k and all(type(x) is type(v) for x in vs):
             return k
+        if all(isinstance(x, VTuple) and len(x.items) == len(v.items) and all(isinstance(y, VInt) for y in x.items)
+               for x in vs):
+            # [(a, b), ...]: a list of integer tuples (ranges)
+            return ('tuple', tuple(('int',) for _ in v.items))
         return ('any',)
 
     def ev_Dict(self, node, st):
@@ -402,7 +410,10 @@ class Exec(Engine):
 
     def norm_index(self, st, i, n, node, what):
         "Python index normalisation + IndexError obligation"
-        idx = ITE(i < 0, i + n, i)
+        if i.get_id() in st.nonneg:
+            idx = i         # a quantified index that ranges over [literal >= 0, hi): no negative wrap-around
+        else:
+            idx = ITE(i < 0, i + n, i)
         self.prove(st, AND(idx >= 0, idx < n), 'aorte', node, 'IndexError: %s' % what)
         return simp(idx)
 
